@@ -139,4 +139,23 @@ def ptrPaths {ν : Type} (passes : List ((String → Bool) × Entries String ν)
   let c := passes.foldl (fun c p => collect p.1 p.2 c) ({} : Coll ν)
   (sortStrings c.list, c.data)
 
+/-! ## the working directory (restclient.getPkgDir)
+
+`getPkgDir` resolves the import path of a parameter struct's package with `build.Import(importPath, "", build.FindOnly)`: the empty
+source directory makes the go command run in the PROCESS's working directory, so the path is looked up in the module context of
+the directory the command was started in - not in that of the package that is being generated (`[dir]`).  A module context is
+`import path ↦ directory`. -/
+
+abbrev ModCtx := Entries String String
+
+/-- the code: the context of the working directory decides -/
+def getPkgDir (cwdCtx : ModCtx) (importPath : String) : Option String := get cwdCtx importPath
+
+/-- the property: the directory the import path has for the package being generated (what the type checker used) -/
+def pkgDirSpec (pkgCtx : ModCtx) (importPath : String) : Option String := get pkgCtx importPath
+
+/-- finding region: the working directory lies in a module context that resolves the path differently (another module that
+    provides the same import path, a replaced or vendored copy, no module at all) -/
+def F_pkgDirCwd (cwdCtx pkgCtx : ModCtx) (importPath : String) : Bool := getPkgDir cwdCtx importPath != pkgDirSpec pkgCtx importPath
+
 end ShootVerif.DetOrder
